@@ -52,11 +52,12 @@ pub proof fn lemma_marks_step(s0: S, s1: S, s2: S, es: Seq<Edge>, i: int)
     let t = es[i].to;
     assert(isobj(s1, t));
     assert(targets(es, t));
+    if !es[i].weak { assert(starget(es, t)); }
     // colours of every object other than t are untouched by the step; t moves up
     assert forall|q: GcPtr| #[trigger] isobj(s0, q) implies {
         let c0 = s0.objs[q].color; let c2 = s2.objs[q].color;
         &&& rank(c0) <= rank(c2)
-        &&& (c0 != c2 ==> is_white(c0) && targets(es, q) && (c2 == GcColor::Black ==> !s0.objs[q].needs_trace))
+        &&& (c0 != c2 ==> is_white(c0) && targets(es, q) && (is_marked(c2) ==> starget(es, q)) && (c2 == GcColor::Black ==> !s0.objs[q].needs_trace))
         &&& qcount(s2, q) == qcount(s0, q) + (if c2 == GcColor::Gray && c0 != GcColor::Gray { 1nat } else { 0nat })
         &&& s0.objs[q].live == s2.objs[q].live && s0.objs[q].needs_trace == s2.objs[q].needs_trace && s0.objs[q].next == s2.objs[q].next
     } by {
